@@ -97,6 +97,7 @@ fixed("C04", "total hang * follow-up nesting:lists", "1bf2f5d", "duplicated rows
 fixed("C04", "total panic@(*NaturalLanguageValues).UnmarshalText *", "fdef947", "NaturalLanguageValues.UnmarshalText indexed data[0] on empty input and sliced [1:0] on a lone quote", "tiny layer: (*NaturalLanguageValues).UnmarshalText with empty input")
 fixed("C04", "total hang * follow-up nesting:collection", "3fad8c5", "OrderedCollection.Equals compared the ordered items twice per level: ItemsEqual on nested ordered collections was exponential", "nesting layer: collection depth 100")
 fixed("C04", "total hang * follow-up *", "64b3878", "ItemsEqual ran Object.Equals and then the specific Equals (which repeats it): exponential in the nesting depth of activities/actors/collections", "nesting layer: collection depth 100")
+fixed("C04", "total panic@gobEncodeItem * follow-up", "d26fa67", "an object decoded from {\"type\":\"IRI\",...} made GobEncode panic (it.(IRI) asserted inside the objects-only branch); found through a side remark of a seeding sub-agent, then reproduced by adding the library's internal type names to the hostile documents", "hostile layer: {\"type\":\"IRI\",\"id\":\"https://a.b/c\"} at (*Object).UnmarshalJSON")
 
 out = {"comment": "Committed list of genuine defects of go-ap/activitypub found by the checks (rendered by tools/findings.py; never written at check run time). "
                   "status=known: recorded, not repaired; the check prints KNOWN-FINDING and masks exactly the keyed cell. "
